@@ -3,7 +3,9 @@ import MxV.Gen.Shapes
 The two lazily filled class-level attribute tables (`XSDComplexType.get_xsd_attributes`,
 `XSDAttributeGroup.get_xsd_attributes`) are extracted from the AST; `publishAfterFill` is decided on
 them, and `Shapes.publish_after_fill_safe` gives: for any number of threads and any schedule
-(statement-granular), every thread gets the complete table. The other class-level cells written
+(statement-granular), every thread gets the complete table (safety); `attribute_tables_progress`
+adds progress: a thread that is given `n + 3` turns has returned the complete table, however the
+other threads' turns are interleaved (no thread can be blocked or starved by the others' steps). The other class-level cells written
 after import are single assignments of a completely built object (listed in `classCells`,
 bounded by the table theorem below).
 What the model cannot exhibit: pre-emption inside a bytecode of CPython's list/dict primitives
@@ -40,6 +42,100 @@ theorem no_provisional_publication : provisionalPublications = [] := by decide
     `Shapes.publish_then_fill_unsafe` (a 3-step schedule in which the second thread returns an
     empty table) -/
 example : True := trivial
+
+/-! ## progress: no schedule can keep a thread that gets its turns from returning -/
+
+/-- steps thread state `t` still needs before it has returned (table of `n` items) -/
+def remaining (n : Nat) : Th → Nat
+  | .start => n + 3
+  | .filling k => n - k + 2
+  | .after => 1
+  | .done _ => 0
+
+def rem (n : Nat) (s : Sys) (i : Nat) : Nat := match s.threads[i]? with | some t => remaining n t | none => 0
+
+theorem stepTh_remaining (n : Nat) (cell : Option Nat) (t : Th) :
+    remaining n (stepTh n cell t).2 ≤ remaining n t - 1 := by
+  cases t with
+  | start =>
+    by_cases hc : cell.isNone = true
+    · simp [stepTh, hc, remaining]
+    · simp [stepTh, hc, remaining]
+  | filling k =>
+    by_cases hk : k < n
+    · simp only [stepTh, if_pos hk, remaining]; omega
+    · simp only [stepTh, if_neg hk, remaining]; omega
+  | after => simp [stepTh, remaining]
+  | done r => simp [stepTh, remaining]
+
+theorem rem_step (n : Nat) (s : Sys) (i j : Nat) :
+    rem n (stepSys n s j) i ≤ rem n s i - (if j = i then 1 else 0) := by
+  unfold stepSys
+  cases hj : s.threads[j]? with
+  | none =>
+    simp only [rem]
+    by_cases hji : j = i
+    · subst hji; simp [hj]
+    · simp [hji]
+  | some t =>
+    simp only [rem]
+    by_cases hji : j = i
+    · subst hji
+      have hlt : j < s.threads.length := by
+        rcases Nat.lt_or_ge j s.threads.length with h | h
+        · exact h
+        · rw [List.getElem?_eq_none h] at hj; cases hj
+      simp only [List.getElem?_set_self hlt, hj, if_true]
+      exact stepTh_remaining n s.cell t
+    · simp only [List.getElem?_set_ne hji, if_neg hji, Nat.sub_zero]
+      exact Nat.le_refl _
+
+theorem rem_run (n : Nat) (sched : List Nat) (s : Sys) (i : Nat) :
+    rem n (runSched n s sched) i ≤ rem n s i - sched.count i := by
+  induction sched generalizing s with
+  | nil => simp [runSched]
+  | cons j r ih =>
+    have h1 := ih (stepSys n s j)
+    have h2 := rem_step n s i j
+    unfold runSched at h1 ⊢
+    rw [List.foldl_cons, List.count_cons]
+    by_cases hji : j = i
+    · subst hji; simp only [beq_self_eq_true, if_true] at h2 ⊢; omega
+    · have : (j == i) = false := by simpa using hji
+      simp only [this, if_neg hji] at h2 ⊢; simp at h2 ⊢; omega
+
+/-- progress under *any* schedule: a thread that has been given `n + 3` turns (however the turns of
+the other threads are interleaved) has returned, and what it returned is the complete table -/
+theorem attribute_tables_progress (n m : Nat) (sched : List Nat) (i : Nat) (hi : i < m)
+    (hturns : n + 3 ≤ sched.count i) :
+    (runSched n { cell := none, threads := List.replicate m .start } sched).threads[i]? = some (.done (some n)) := by
+  have hr := rem_run n sched { cell := none, threads := List.replicate m .start } i
+  have h0 : rem n { cell := none, threads := List.replicate m .start } i = n + 3 := by
+    simp [rem, hi, remaining]
+  rw [h0] at hr
+  have hz : rem n (runSched n { cell := none, threads := List.replicate m .start } sched) i = 0 := by omega
+  have hlen : ∀ (sc : List Nat) (s : Sys), (runSched n s sc).threads.length = s.threads.length := by
+    intro sc; induction sc with
+    | nil => intro s; rfl
+    | cons j r ih =>
+      intro s; unfold runSched at ih ⊢; rw [List.foldl_cons, ih]
+      unfold stepSys; split <;> simp
+  have hlt : i < (runSched n { cell := none, threads := List.replicate m .start } sched).threads.length := by
+    rw [hlen]; simpa using hi
+  unfold rem at hz
+  rw [List.getElem?_eq_getElem hlt] at hz ⊢
+  simp only at hz
+  have hmem := List.getElem_mem hlt
+  cases ht : (runSched n { cell := none, threads := List.replicate m .start } sched).threads[i] with
+  | start => rw [ht] at hz; simp [remaining] at hz
+  | filling k => rw [ht] at hz; simp [remaining] at hz
+  | after => rw [ht] at hz; simp [remaining] at hz
+  | done r =>
+    have := attribute_tables_thread_safe n m sched _ hmem r ht
+    rw [this]
+
+example : (runSched 2 { cell := none, threads := List.replicate 2 .start } [0, 1, 0, 1, 0, 0, 1, 1, 0, 1]).threads[1]? =
+    some (.done (some 2)) := attribute_tables_progress 2 2 _ 1 (by decide) (by decide)
 end C20
 
 #print axioms C20.complex_publish_after_fill
@@ -48,3 +144,6 @@ end C20
 #print axioms C20.class_cells_known
 #print axioms C20.class_mutables_known
 #print axioms C20.no_provisional_publication
+#print axioms C20.stepTh_remaining
+#print axioms C20.rem_run
+#print axioms C20.attribute_tables_progress
